@@ -197,7 +197,8 @@ pub fn shape_types(max_n: usize, set: bool) -> Vec<(String, Ty)> {
 /// C03 shapes whose components are of REFERENCED types: a plain SEQUENCE (no OPTIONAL, no marker: its reader and
 /// writer need no presence bits of their own) and a named INTEGER, each mandatory or OPTIONAL, every marker position.
 pub fn shape_ref_types(max_n: usize, set: bool) -> Vec<(String, Ty)> {
-    let types = [Ty::r("Tplain"), Ty::r("Tsmall"), Ty::r("Tchoice"), Ty::r("Tsmall")];
+    // (a different type first for SEQUENCE and for SET shapes, so that each occurs in front of additions)
+    let types = if set { [Ty::r("Tplain"), Ty::r("Tchoice"), Ty::r("Tsmall"), Ty::r("Tsmall")] } else { [Ty::r("Tchoice"), Ty::r("Tplain"), Ty::r("Tsmall"), Ty::r("Tchoice")] };
     let mut out = vec![];
     for n in 1..=max_n {
         for code in 0..2usize.pow(n as u32) {
